@@ -43,7 +43,9 @@ def idx(base, i):
         if -len(items) <= k < len(items):
             return items[k]
     if base[0] == "phi":
-        return phi(base[1], idx(base[2], i), idx(base[3], i))
+        a, b = idx(base[2], i), idx(base[3], i)
+        if not (a[0] == "idx" and a[1] == base[2] and b[0] == "idx" and b[1] == base[3]):
+            return phi(base[1], a, b)        # distribute only when a branch folds
     return ("idx", base, i)
 
 
@@ -536,3 +538,37 @@ def show(t, depth=0):
     if k in ("exists", "forall"):
         return f"{k} {show(t[2])} in {show(t[3])}: {show(t[1])}"
     return k + "(" + ", ".join(show(x) if isinstance(x, tuple) else str(x) for x in t[1:]) + ")"
+
+
+def transform(t, f):
+    """bottom-up rewriting: f(term) -> replacement or None; polynomials and formulas are re-normalised"""
+    if not isinstance(t, tuple) or not t or not isinstance(t[0], str):
+        if isinstance(t, tuple):
+            return tuple(transform(x, f) for x in t)
+        return t
+    k = t[0]
+    if k in ("num", "sym", "str", "bool", "none", "bv"):
+        new = t
+    elif k == "poly":
+        new = ZERO
+        for m, c in t[1]:
+            term = ("num", c)
+            for a, e in m:
+                term = mul(term, power(transform(a, f), e))
+            new = add(new, term)
+    elif k == "idx":
+        new = idx(transform(t[1], f), transform(t[2], f))
+    elif k == "attr":
+        new = attr(transform(t[1], f), t[2])
+    elif k == "phi":
+        new = phi(transform(t[1], f), transform(t[2], f), transform(t[3], f))
+    elif k == "and":
+        new = b_and(*[transform(x, f) for x in t[1]])
+    elif k == "or":
+        new = b_or(*[transform(x, f) for x in t[1]])
+    elif k == "not":
+        new = b_not(transform(t[1], f))
+    else:
+        new = tuple(transform(x, f) if isinstance(x, tuple) else x for x in t)
+    r = f(new)
+    return new if r is None else r
